@@ -7,6 +7,7 @@
 #include "valloc.h"
 #include "vpeer.h"
 #include "vs.h"
+#include <nng/http.h>
 #include <arpa/inet.h>
 #include <errno.h>
 #include <fcntl.h>
@@ -904,6 +905,128 @@ run_s16(void *arg)
 	vh_fini();
 }
 
+// ---- S17: HTTP client transaction || cancel || the server's answer / silence / disconnect ------------
+// nng_http_client_connect + nng_http_transact against a raw TCP server owned by the harness.  The
+// server has read the request and then sends nothing, half of a response head, a complete response
+// with a body, or closes - while another thread cancels the transaction (or nobody does and the
+// timeout runs).  One callback, allowed result, a successful result carries the whole body, and
+// the connection object can be closed and the client freed afterwards.
+static op S17;
+static void *
+s17_canceller(void *a)
+{
+	(void) a;
+	nng_aio_cancel(S17.aio);
+	return NULL;
+}
+static void
+run_s17(void *arg)
+{
+	(void) arg;
+	vs_tcp_grace_us = 1500;
+	vh_init(0);
+	memset(&S17, 0, sizeof(S17));
+	struct sockaddr_in sa;
+	socklen_t          sl = sizeof(sa);
+	memset(&sa, 0, sizeof(sa));
+	sa.sin_family      = AF_INET;
+	sa.sin_addr.s_addr = htonl(INADDR_LOOPBACK);
+	int lfd            = socket(AF_INET, SOCK_STREAM, 0);
+	if (lfd < 0 || bind(lfd, (struct sockaddr *) &sa, sizeof(sa)) != 0 || listen(lfd, 4) != 0 ||
+	    getsockname(lfd, (struct sockaddr *) &sa, &sl) != 0)
+		vs_fail("harness:peer", "raw server socket");
+	fcntl(lfd, F_SETFL, fcntl(lfd, F_GETFL) | O_NONBLOCK);
+	char             url[64];
+	nng_url         *u;
+	nng_http_client *cli;
+	nng_aio         *ca;
+	snprintf(url, sizeof(url), "http://127.0.0.1:%d/s17", ntohs(sa.sin_port));
+	VH_OK(nng_url_parse(&u, url));
+	VH_OK(nng_http_client_alloc(&cli, u));
+	VH_OK(nng_aio_alloc(&ca, NULL, NULL));
+	nng_http_client_connect(cli, ca);
+	int fd = -1;
+	for (int t = 0; t < 20 && fd < 0; t++) {
+		vs_settle();
+		fd = accept(lfd, NULL, NULL);
+		if (fd < 0)
+			vs_sleep(2);
+	}
+	nng_aio_wait(ca);
+	if (fd < 0 || nng_aio_result(ca) != 0)
+		vs_fail("harness:peer", "http connect");
+	fcntl(fd, F_SETFL, fcntl(fd, F_GETFL) | O_NONBLOCK);
+	nng_http *conn = nng_aio_get_output(ca, 0);
+	VH_OK(nng_http_set_uri(conn, "/s17", NULL));
+	VH_OK(nng_aio_alloc(&S17.aio, op_cb, &S17));
+	nng_aio_set_timeout(S17.aio, 30);
+	S17.timeout   = 30;
+	S17.t_start   = vs_now();
+	S17.submitted = 1;
+	int answer    = vs_choose(VK_ENV, 5); // silence / half head / head only / full / close
+	int cancel    = vs_choose(VK_ENV, 2);
+	nng_http_transact(conn, S17.aio);
+	vs_settle();
+	char   req[1024];
+	(void) vp_read_avail(fd, req, sizeof(req));
+	static const char full[] = "HTTP/1.1 200 OK\r\nContent-Length: 5\r\n\r\nhello";
+	pthread_t          tc;
+	vs_window(1);
+	if (cancel)
+		pthread_create(&tc, NULL, s17_canceller, NULL);
+	switch (answer) {
+	case 1:
+		vp_write_all(fd, full, 20);
+		break;
+	case 2:
+		vp_write_all(fd, full, sizeof(full) - 1 - 5);
+		break;
+	case 3:
+		vp_write_all(fd, full, sizeof(full) - 1);
+		break;
+	case 4:
+		close(fd);
+		fd = -1;
+		break;
+	default:
+		break;
+	}
+	if (cancel)
+		pthread_join(tc, NULL);
+	vs_settle();
+	vs_window(0);
+	vs_sleep(60); // past the timeout
+	vs_settle();
+	if (S17.ncb != 1)
+		vs_fail(S17.ncb ? "C02:callback-count" : "C02:never-completes:http-transact",
+		    "http transaction (answer %d, cancel %d): %d callbacks 60 ms after a 30 ms timeout",
+		    answer, cancel, S17.ncb);
+	static const int ok[] = { 0, NNG_ECANCELED, NNG_ETIMEDOUT, NNG_ECONNSHUT, NNG_ECLOSED,
+		NNG_ECONNRESET, NNG_EPROTO };
+	allowed(&S17, "http transact", ok, 7);
+	if (S17.result == 0) {
+		void  *body;
+		size_t bl;
+		nng_http_get_body(conn, &body, &bl);
+		if (answer != 3 || nng_http_get_status(conn) != 200 || bl != 5 ||
+		    memcmp(body, "hello", 5) != 0)
+			vs_fail("C02:result-without-effect",
+			    "http transaction reported success (answer kind %d) with status %d and a "
+			    "%zu byte body",
+			    answer, (int) nng_http_get_status(conn), bl);
+	}
+	vs_outcome("answer=%d cancel=%d res=%d", answer, cancel, S17.result);
+	nng_http_close(conn);
+	nng_aio_free(S17.aio);
+	nng_aio_free(ca);
+	nng_http_client_free(cli);
+	nng_url_free(u);
+	if (fd >= 0)
+		close(fd);
+	close(lfd);
+	vh_fini();
+}
+
 // ---- S10: user-written provider: timeout || nng_aio_free || unrelated timer ----------------
 // the provider's cancel function completes the operation and then keeps using the aio for a
 // moment (cleanup); nng_aio_free called after the completion callback must not return - and the
@@ -1334,6 +1457,7 @@ main(int argc, char **argv)
 	explore("S8-stream-write-cancel", run_s8, (void *) 0, p, t, sw, tot);
 	explore("S8-stream-close-cancel", run_s8, (void *) 1, p, t, sw, tot);
 	explore("S8-stream-idle-cancel", run_s8, (void *) 2, p, t, sw, tot);
+	explore("S17-http-transact-cancel", run_s17, NULL, 1, 1, 1, T ? 2 : 1);
 	for (int tr = 0; tr < (T ? 4 : 3); tr++) { // (ws: the 64 KB frames never stall; thorough only)
 		char nm[64];
 		snprintf(nm, sizeof(nm), "S16-stream-queued-writes-%s", S16N[tr]);
